@@ -588,3 +588,19 @@ func short(b []byte) string {
 	}
 	return strconv.Quote(s)
 }
+
+func viaStrs(l []AVia) []string {
+	var o []string
+	for _, e := range l {
+		o = append(o, e.String())
+	}
+	return o
+}
+
+func naList(l []ANameAddr) string {
+	var s []string
+	for _, e := range l {
+		s = append(s, e.String())
+	}
+	return "[" + strings.Join(s, " | ") + "]"
+}
